@@ -97,6 +97,7 @@ type checkedObl struct {
 }
 
 type funcRun struct {
+	poisoned int
 	key  string
 	g    *gen
 	err  error
@@ -197,10 +198,34 @@ func runProperty(P *Program, pf *PropFile, findings *FindingsFile, timeout int, 
 			if err != nil || g == nil {
 				return
 			}
-			only := func(o *obligation) bool {
+			selected := func(o *obligation) bool {
 				return o.Kind == "smoke" || o.Kind == "canary" || o.Kind == "finding" || matchAny(pf.Obligations, o.Name)
 			}
-			fr.res = solveAll(g, dir, timeout, cross, only, 5)
+			// round 1: every obligation of the function (a failed assertion is assumed afterwards, so an
+			// unrelated failure could make this property's obligations pass vacuously)
+			all := solveAll(g, dir, timeout, false, func(o *obligation) bool { return selected(o) || (o.Kind != "smoke" && o.Kind != "canary" && o.Kind != "finding") }, 6)
+			failing := map[int]bool{}
+			for _, r := range all {
+				k := r.Obl.Kind
+				if k != "smoke" && k != "canary" && k != "finding" && r.Answer.Result != "unsat" {
+					failing[r.Obl.idx] = true
+				}
+			}
+			if len(failing) == 0 {
+				if cross {
+					fr.res = solveAll(g, dir, timeout, true, selected, 5)
+				} else {
+					for _, r := range all {
+						if selected(r.Obl) {
+							fr.res = append(fr.res, r)
+						}
+					}
+				}
+			} else {
+				// round 2: this property's obligations, with the failed ones asserted but not assumed
+				fr.poisoned = len(failing)
+				fr.res = solveAllNA(g, dir, timeout, cross, selected, 5, failing)
+			}
 			fr.secs = time.Since(t0).Seconds()
 		}(i, fk)
 	}
@@ -208,6 +233,9 @@ func runProperty(P *Program, pf *PropFile, findings *FindingsFile, timeout int, 
 
 	generated := map[string]bool{}
 	replayDir := filepath.Join(verifDir, "out", "replay", pf.ID)
+	if o := os.Getenv("PIKEVC_OUT"); o != "" {
+		replayDir = filepath.Join(o, "replay", pf.ID)
+	}
 	_ = os.RemoveAll(replayDir)
 	violation := func(obl, why string, payload map[string]interface{}, hasInput bool) {
 		_ = os.MkdirAll(replayDir, 0o755)
@@ -242,10 +270,25 @@ func runProperty(P *Program, pf *PropFile, findings *FindingsFile, timeout int, 
 		for k := range g.used {
 			rep.Uses[k] = true
 		}
+		// vacuity verdicts are only meaningful when every real obligation of the function holds:
+		// after a failed assertion the rest of the path is analysed under a false assumption
+		fnFailed := false
+		for i := range fr.res {
+			k := fr.res[i].Obl.Kind
+			if k != "smoke" && k != "canary" && k != "finding" && fr.res[i].Answer.Result != "unsat" {
+				if _, isKnown := known[fr.res[i].Obl.Name]; !isKnown {
+					fnFailed = true
+				}
+			}
+		}
 		for i := range fr.res {
 			r := &fr.res[i]
 			o := r.Obl
 			rep.SolverSecs += r.Answer.Secs
+			if fnFailed && (o.Kind == "smoke" || o.Kind == "canary") {
+				rep.Vacuity[o.Name] = "skipped (an obligation of this function failed)"
+				continue
+			}
 			switch o.Kind {
 			case "smoke":
 				switch r.Answer.Result {
@@ -331,7 +374,16 @@ func runProperty(P *Program, pf *PropFile, findings *FindingsFile, timeout int, 
 		}
 	}
 	// pinned obligations must still be generated
+	failedFn := map[string]bool{}
+	for _, fr := range runs {
+		if fr.err != nil || (fr.g != nil && len(fr.g.errs) > 0) {
+			failedFn[shortKey(fr.key)] = true
+		}
+	}
 	for _, p := range pf.Pinned {
+		if i := strings.Index(p, "/"); i > 0 && failedFn[p[:i]] {
+			continue // already reported as contract-binding / outside-subset
+		}
 		if !generated[baseName(p)] {
 			violation(p, "pinned obligation is no longer generated (function, clause or loop disappeared)", map[string]interface{}{}, false)
 		}
@@ -467,9 +519,13 @@ func writeEvidence(pf *PropFile, rep *report) {
 		"wall_s":      rep.WallS,
 		"violations":  rep.Violations,
 	}
-	_ = os.MkdirAll(filepath.Join(verifDir, "evidence"), 0o755)
+	evDir := filepath.Join(verifDir, "evidence")
+	if o := os.Getenv("PIKEVC_OUT"); o != "" {
+		evDir = filepath.Join(o, "evidence")
+	}
+	_ = os.MkdirAll(evDir, 0o755)
 	data, _ := json.MarshalIndent(ev, "", " ")
-	_ = os.WriteFile(filepath.Join(verifDir, "evidence", pf.ID+".json"), data, 0o644)
+	_ = os.WriteFile(filepath.Join(evDir, pf.ID+".json"), data, 0o644)
 }
 
 // cmdPin regenerates the pinned obligation list of a property from the current tree.
